@@ -714,6 +714,10 @@ func (ev *Evaluator) binop(op token.Token, x, y Val, pos token.Pos) (Val, error)
 			_ = ix
 			return Const{constant.MakeBool(op == token.NEQ)}, nil
 		}
+		// a bit vector with known high bits against a constant: decided by its value interval
+		if r, ok := bitsCmpConst(op, x, y); ok {
+			return Const{constant.MakeBool(r)}, nil
+		}
 		ord, ok := ev.Oracle.Cmp(x, y)
 		ev.Asked = append(ev.Asked, fmt.Sprintf("%v %s %v", x, op, y))
 		if !ok {
